@@ -14,3 +14,19 @@ for m in p.modules.values():
 (ROOT / "baselines").mkdir(exist_ok=True)
 (ROOT / "baselines" / "skips.json").write_text(json.dumps(out, indent=1, sort_keys=True))
 print(len(out), "functions profiled")
+
+# reference of local-variable names (see sa/model.py:_derename)
+from sa.model import ordered_locals
+import ast as _ast
+loc = {}
+for m in p.modules.values():
+    def visit(body, prefix):
+        for st in body:
+            if isinstance(st, (_ast.FunctionDef, _ast.AsyncFunctionDef)):
+                loc[f"{m.name}:{prefix}{st.name}"] = ordered_locals(st)
+                visit(st.body, prefix + st.name + ".")
+            elif isinstance(st, _ast.ClassDef):
+                visit(st.body, prefix + st.name + ".")
+    visit(m.tree.body, "")
+(ROOT / "baselines" / "locals.json").write_text(json.dumps(loc, indent=0, sort_keys=True))
+print(len(loc), "functions with local-name references")
